@@ -180,6 +180,8 @@ def obligations(tier, seed):
             for n in (1, 2):
                 if n == 2 and q and name not in ("a", "f", "h"):
                     continue
+                if n == 2 and len(INPUTS[name]) > 3:
+                    continue  # (m^2 * 2^k)^2 outcomes: not exhaustible for 4 hyperedges
                 out.append({"family": "cm", "input": name, "label": label, "detailed": False, "n_steps": n})
             # detailed=True: pairs of unequal size are redrawn; `redraws` bounds the number of redraws per run
             if uniform(name):
